@@ -19,7 +19,7 @@ RULE = ('random fields of dtype complex128 / float64 / int64 / bool in C, Fortra
         'requested spacing 0.31..1.7 x the FFT spacing; shifts 0 / integer / fractional samples per axis; methods mdft and czt; '
         'both directions; executor level additionally with per-axis Q = (Qy,Qx), Qy != Qx; masks: all-pass on a band-complete '
         'M x M grid (M >= both pupil sides), random real and complex masks on arbitrary (non-square) grids and samplings, '
-        'with shifts. A case is non-trivial unless the array is 1x1 / the embedding adds nothing / a = 1, b = 0; '
+        'with shifts; Wavefront.babinet on the same mask families with complex / binary / no Lyot stop. A case is non-trivial unless the array is 1x1 / the embedding adds nothing / a = 1, b = 0; '
         'distinct = distinct (item, input) tuples')
 ASSUMPTIONS = ['cases whose shift or Q is handed over as a float32 ndarray are compared at 2e-4 (NumPy computes with the precision of the '
                'argument the user chose), all others at 1e-9',
@@ -898,6 +898,14 @@ def _small_scope():
 
 
 def search(ctx, hints):
+    # a case on which the correspondence saw the real code disagree with the model (or raise): evaluate the property's own
+    # predicate for that item on exactly that input first
+    for dg in (hints or {}).get('disagreements', [])[:50]:
+        case = {k: v for k, v in dg['case'].items() if k != 'point'} if isinstance(dg.get('case'), dict) else None
+        if case is not None and dg.get('item') in PREDS:
+            d = eval_pred(dg['item'], case)
+            if d is not None:
+                return {'item': dg['item'], 'input': case, 'detail': d}
     for c in _corpus():
         d = eval_pred(c['item'], c['input'])
         if d is not None:
@@ -943,16 +951,16 @@ MANIFEST_ENTRY = {
              'per-axis Q of both free functions the kernel constant 1/(n_a Q_a) does not depend on the sample count; transposing the '
              'input and swapping the per-axis arguments transposes the output (also at executor level with per-axis Q); a separable '
              'field transforms to the product of the per-axis transforms; the mask-and-return path is additive and C-homogeneous in '
-             'the mask (Babinet: mask + complement = unmasked) and linear in the field; an all-pass mask on a band-complete M x M '
+             'the mask (Babinet: mask + complement = unmasked) and linear in the field; the whole mask path to_fpm_and_back is transposed when field, mask and shift components are transposed (every pupil and mask shape) and, for a field embedded in a larger zero array, returns on the window of the original samples exactly what the original array returns; Wavefront.babinet (model: Lyot stop x [field - return through 1 - mask]) splits into the band-limiting residual plus Lyot x return(mask) on every grid and equals Lyot x to_fpm_and_back(mask) on a band-complete grid (Babinet's principle, also instantiated with exp(-2 pi i t)); an all-pass mask on a band-complete M x M '
              'grid (M fpm_dx dx = lambda f, M >= both pupil sides) returns the field exactly for EVERY mask shift, from '
              'root-of-unity orthogonality, itself proved from the character law when the kernel of e is Z (instantiated with '
              'exp(-2 pi i t)); the model toFpmAndBack these theorems speak about equals the mask-and-return sum fed with the '
              'GENERATED constants of both legs, and the arrays the Lean driver prints are these models. These are statements about '
              'the transform model; that method=czt and method=mdft both compute it is C03.ffs_czt_engine_eq_model / C01. '
-             'TRANSLATED from the current source each run (9 items): to_fpm_and_back with both legs inlined by symbolic execution, '
+             'TRANSLATED from the current source each run (10 items): to_fpm_and_back with both legs inlined by symbolic execution, '
              'for an array mask and for a Wavefront mask (identical leg arguments required) — per-axis Q of each leg, the shift each '
              'leg finally hands to its transform (theorem: both equal shift/fpm_dx), the requested shapes; Q/shift glue of '
-             'focus/unfocus_fixed_sampling. RECOGNISERS (Bool facts): mask enters as a plain product and that product travels back, '
+             'focus/unfocus_fixed_sampling; the pointwise arithmetic of Wavefront.babinet (mask handed down = 1 - fpm, field at the Lyot plane = self.data - returned.data, stop applied as a product / skipped when None; theorem gen_babinet: composed around the mask-path model they ARE Model.C05.babinet). RECOGNISERS (Bool facts): mask enters as a plain product and that product travels back, '
              'order of the return_more tuple, wiring of Wavefront.to_fpm_and_back and the dx/space it labels each returned plane '
              'with, babinet = field - return(1 - fpm). '
              'MODELLED AND COMPARED: focus/unfocus_fixed_sampling, the mdft/czt executors (incl. per-axis Q) and to_fpm_and_back '
@@ -962,7 +970,7 @@ MANIFEST_ENTRY = {
              'transpose/pad/separability, all-pass (array or Wavefront mask with or without fpm_dx, function and Wavefront method, '
              'returned container checked), Babinet additivity/complement/homogeneity, field-linearity/pad/transpose/method agreement '
              'of to_fpm_and_back itself, return_more planes (values, order, dx, space) of to_fpm_and_back, its Wavefront method and '
-             'babinet, Lyot stop as array or Wavefront.'),
+             'babinet, Lyot stop as array or Wavefront; Wavefront.babinet against the Lean model (table and pointwise from Model.C05.babinet) and against explicit physical-units sums, masks real/complex/binary/bool/int/strided as arrays or Wavefronts, Lyot stop complex/binary/absent, band-complete and general mask grids.'),
     'note': ('Trusted: Lean kernel + standard axioms; ast->Lean translator (validated by execution); numpy/scipy; float64 rounding '
              '(tolerance 1e-9, observed 1e-14). Not covered: *_backprop functions (C06), float32 mode, other backends.'),
 }
